@@ -1,6 +1,6 @@
 (* C06 — Every reported match carries the value registered for the matched pattern. *)
-From DV Require Import Model.Base Model.Nfa Model.BwBuild Model.BwSearch Model.Api Model.Spec
-     Model.Cert Proofs.BwCert Theory.SpecAdequacy.
+From DV Require Import Model.Base Model.Nfa Model.BwBuild Model.BwSearch Model.Utf8 Model.CwBuild Model.Api Model.Spec
+     Model.Cert Proofs.BwCert Theory.SpecAdequacy Proofs.Leftmost Proofs.BwLeftmost Theory.LmfSpec Proofs.Utf8Props Proofs.CwCert.
 Local Open Scope N_scope.
 
 (* every element of the three executable specifications is a true occurrence carrying a value
@@ -48,6 +48,42 @@ Proof.
   apply spec_nosuffix_sound. exact Hin.
 Qed.
 Print Assumptions bw_nosuffix_match_sound.
+
+(* leftmost kinds: every reported match is the pattern chosen at its start, with its value *)
+Theorem bw_leftmost_match_sound :
+  forall (V : Type) (veqb : V -> V -> bool), (forall a b, veqb a b = true -> a = b) ->
+  forall (A : bw_automaton V) (pvs : list (list N * V)), bw_lm_cert_ok veqb A pvs = true ->
+  forall h ms, Forall (fun b => b < 256) h -> bw_leftmost_find_iter V A h = Ok ms ->
+  forall s e v, In (s, e, v) ms ->
+    exists p, In (p, v) pvs /\ is_prefix p (skipn s h) = true /\ e = (s + length p)%nat.
+Proof.
+  intros V veqb Hv A pvs C h ms Hb Hr s e v Hin.
+  rewrite (bw_leftmost_correct_lemma V veqb Hv A pvs C h Hb) in Hr. inversion Hr; subst. clear Hr.
+  unfold spec_lml in Hin. apply spec_leftmost_from_in in Hin as ([p x] & Hc & -> & ->). cbn [fst snd].
+  unfold longest_at in Hc.
+  pose proof (longest_at_spec V (fun _ _ => Ok None) [] (fun p v (H : In (p, v) []) => match H with end) h s
+                              (nonempty_pats V pvs) None I) as Hl.
+  rewrite Hc in Hl. destruct Hl as (Hi & Hp & _). destruct Hi as [Hi|Hi]; [|discriminate].
+  exists p. split; [|split; [exact Hp|reflexivity]].
+  unfold nonempty_pats in Hi. apply filter_In in Hi as [Hi _]. exact Hi.
+Qed.
+Print Assumptions bw_leftmost_match_sound.
+
+(* character-wise: every match of the overlapping search is a character-level occurrence with its
+   value, reported with the byte offsets of its character positions *)
+Theorem cw_overlapping_match_sound :
+  forall (V : Type) (veqb : V -> V -> bool), (forall a b, veqb a b = true -> a = b) ->
+  forall (A : cw_automaton V) (pvs : list (list N * V)), cw_cert_ok veqb A pvs = true ->
+  forall cs ms, Forall scalar cs -> cw_find_overlapping_iter V A (encode_utf8 cs) = Ok ms ->
+  forall x, In x ms -> exists s e v, x = to_bytes V cs (s, e, v)
+                                     /\ (s < e <= length cs)%nat /\ In (sub cs s e, v) pvs.
+Proof.
+  intros V veqb Hv A pvs C cs ms Hs Hr x Hin.
+  rewrite (cw_overlapping_correct_lemma V veqb Hv A pvs C cs Hs) in Hr. inversion Hr; subst. clear Hr.
+  apply in_map_iff in Hin as ([[s e] v] & <- & Hin). exists s, e, v. split; [reflexivity|].
+  apply spec_overlapping_sound. exact Hin.
+Qed.
+Print Assumptions cw_overlapping_match_sound.
 
 (* in a duplicate-free collection the value registered for a byte string is unique, so "a value
    registered for h[s..e]" is THE value the user attached to it (also when values repeat) *)
